@@ -48,6 +48,7 @@ pub fn run(obligation: &str) -> i32 {
     if ["C04.constraint_link", "C04.set_link", "C04.element_link"].iter().any(|p| obligation.starts_with(p)) { c04_link(&mut rep); return rep.finish("C04_link"); }
     if ["C04.constraint_has_reference", "C04.set_has_reference", "C04.element_has_reference", "C04.type_has_reference", "C04.is_elsewhere_declared", "C04.optionality_default"].iter().any(|p| obligation.starts_with(p)) { c04_references(&mut rep); return rep.finish("C04_references"); }
     if obligation.starts_with("C04.") { c04_bounds(&mut rep); return rep.finish("C04_bounds"); }
+    if obligation.starts_with("C07.named_bits") || obligation.starts_with("C07.lemma.a_listed_name") || obligation.starts_with("C07.lemma.the_empty_list") { c07_named_bits(&mut rep); return rep.finish("C07_named_bits"); }
     if obligation.starts_with("C07.named_lookup") || obligation.starts_with("C07.has_enum_value") || obligation.starts_with("C07.lemma") { c07_lookup(&mut rep); return rep.finish("C07_lookup"); }
     if obligation.starts_with("C07.") { c07_octets_to_bits(&mut rep); return rep.finish("C07_octets_to_bits"); }
     if obligation.starts_with("C14.") { c14_numbering(&mut rep); return rep.finish("C14_numbering"); }
@@ -1188,5 +1189,40 @@ fn c02_components_of(rep: &mut Rep) {
         indices(&got, &mut gi); indices(&want, &mut wi);
         if is_set { rep.check("C05.link_components_of.set_first_addition_index_moves_with_every_included_component", gi == wi, || format!("first-addition indices {gi:?}, expected {wi:?}; type before: {ty:?}")); }
         if is_seq { rep.check("C05.link_components_of.sequence_first_addition_index_moves_with_every_included_component", gi == wi, || format!("first-addition indices {gi:?}, expected {wi:?}; type before: {ty:?}")); }
+    }
+}
+
+// ---------------------------------------------------------------------------------------------- C07 (unit C07_named_bits)
+// Executable copy of `bit_is_set`: bit i is set iff the value lists a name the type declares with NUMBER i.  The private function is
+// reached through the public ASN1Value::link_with_type, arm (BIT STRING with named bits, `{ name, .. }`), which calls it with the
+// highest declared number.  Lists: numbered in order, with gaps, descending, starting above 0, single; every subset of the names.
+fn c07_named_bits(rep: &mut Rep) {
+    let lists: Vec<Vec<(&str, i128)>> = vec![
+        vec![("a", 0), ("b", 1), ("c", 2)],
+        vec![("read", 0), ("write", 1), ("exec", 4), ("admin", 7)],
+        vec![("last", 2), ("middle", 1), ("first", 0)],
+        vec![("lo", 2), ("hi", 5)],
+        vec![("only", 3)],
+        vec![("x", 6), ("y", 0), ("z", 3), ("w", 1)],
+    ];
+    let tlds: BTreeMap<String, ToplevelDefinition> = BTreeMap::new();
+    for l in &lists {
+        let ds: Vec<DistinguishedValue> = l.iter().map(|(n, v)| DistinguishedValue { name: n.to_string(), value: *v }).collect();
+        let ty = ASN1Type::BitString(BitString { constraints: vec![], distinguished_values: Some(ds.clone()) });
+        let highest = l.iter().map(|(_, v)| *v).max().unwrap();
+        for mask in 0..(1u32 << l.len()) {
+            for reversed in [false, true] {
+                let mut names: Vec<String> = (0..l.len()).filter(|k| mask & (1 << k) != 0).map(|k| l[k].0.to_string()).collect();
+                if reversed { names.reverse(); }
+                let want: Vec<bool> = (0..=highest).map(|i| l.iter().any(|(n, v)| *v == i && names.iter().any(|x| x == n))).collect();
+                let mut v = ASN1Value::BitStringNamedBits(names.clone());
+                let r = v.link_with_type(&tlds, &ty, None);
+                let d = || format!("BIT STRING {{ {} }} value {{ {} }} -> {v:?} (expected bits {want:?})", l.iter().map(|(n, v)| format!("{n}({v})")).collect::<Vec<_>>().join(", "), names.join(", "));
+                let ok = r.is_ok() && matches!(&v, ASN1Value::BitString(b) if *b == want);
+                for nm in ["C07.named_bits.bit_i_is_set_iff_a_listed_name_is_declared_with_number_i", "C07.named_bits.bits_so_far_are_set_by_number", "C07.named_bits.names_scanned_so_far", "C07.named_bits.safety"] { rep.check(nm, ok, d); }
+                let len_ok = matches!(&v, ASN1Value::BitString(b) if b.len() as i128 == highest + 1);
+                for nm in ["C07.named_bits.one_bit_per_position_up_to_the_highest_number", "C07.named_bits.one_bit_per_position_so_far"] { rep.check(nm, len_ok, d); }
+            }
+        }
     }
 }
